@@ -69,6 +69,14 @@ pub fn header(ctx: &mut Ctx, reg: &Region, tr: &mut Tr, opts: &Opts, h: &Multibo
         match catch(|| it.next()) {
             Out::Panic(_) => {
                 tl!(tr, " walk Panic after {}", k);
+                // next() after a caught panic: still only safe calls (see exercise.rs)
+                for _ in 0..2 {
+                    if let Out::Val(Some(t)) = catch(|| it.next()) {
+                        let a = t as *const _ as *const u8 as usize;
+                        view(ctx, reg, tr, "walk.item-after-panic", a, core::mem::size_of_val(t), None);
+                    }
+                }
+                ctx.count("walk:next-after-panic");
                 break;
             }
             Out::Val(None) => {
